@@ -1400,7 +1400,9 @@ class SBT(Index):
 
         new_leaves = {}
 
-        levels = int(math.ceil(math.log(len(larger), self.d))) + 1
+        # a tree of n leaves has ceil(log_d(n)) + 1 levels, except that a single
+        # leaf still sits one level below the root
+        levels = int(math.ceil(math.log(max(len(larger), 2), self.d))) + 1
         current_pos = 1
         n_previous = 0
         n_next = 1
